@@ -21,6 +21,7 @@ import (
 type exec struct {
 	net    *relaynet.Net
 	outbox []relaynet.Wire // queued Control datagrams
+	vias   []string        // relay frames emitted during the last collect (`v:<node>:<outer index>`)
 }
 
 func dump(nd *relaynet.Node) string {
@@ -45,6 +46,9 @@ func dump(nd *relaynet.Node) string {
 	for _, i := range idxs {
 		fmt.Fprintf(&sb, " m:%d:%d", i, st.RelaysMap[i])
 	}
+	for _, i := range st.RelayUsed {
+		fmt.Fprintf(&sb, " u:%d", i)
+	}
 	return sb.String()
 }
 
@@ -52,6 +56,8 @@ func dump(nd *relaynet.Node) string {
 // are queued in the outbox; the returned tokens name them (`s:<node>`), forwarded relay datagrams
 // (`f:<node>:<idx>`) and newly pending handshakes (`hs:<addr>`).
 func (e *exec) collect(i int, pendingBefore []string) (outs []string, fwd string) {
+	var vias []string
+	defer func() { e.vias = vias }()
 	fwd = "none"
 	for _, w := range e.net.Take() {
 		var h header.H
@@ -65,6 +71,7 @@ func (e *exec) collect(i int, pendingBefore []string) (outs []string, fwd string
 			outs = append(outs, fmt.Sprintf("s:%d", d))
 		case h.Type == header.Message && h.Subtype == header.MessageRelay:
 			fwd = fmt.Sprintf("fwd %d %d", d, h.RemoteIndex)
+			vias = append(vias, fmt.Sprintf("v:%d:%d", d, h.RemoteIndex))
 		}
 	}
 	before := map[string]bool{}
@@ -216,6 +223,37 @@ func newExec(t *testing.T) func([]string) string {
 			}
 			A.ClearRemote(idx)
 			return dump(A)
+		case "start":
+			// start <a> <t> <r>[,<r>…]: a's outbound handshake attempt towards t runs StartRelays with these relays
+			ia, A := node(a[1])
+			_, T := node(a[2])
+			var relays []netip.Addr
+			for _, x := range strings.Split(a[3], ",") {
+				_, R := node(x)
+				relays = append(relays, R.Vpn)
+			}
+			pend := A.State().Pending
+			e.net.Take()
+			A.StartRelays(T.Vpn, relays, []byte{0xff, 0xff, 0xff, 0xff})
+			outs, _ := e.collect(ia, pend)
+			return joinOuts(dump(A), append(outs, e.vias...))
+		case "migrate":
+			// migrate <a> <b>: a's connection manager migrates the used relays of its second-newest
+			// hostinfo for b to the primary one (doTrafficCheck, decision migrateRelays)
+			ia, A := node(a[1])
+			_, B := node(a[2])
+			idxs := A.HostIndexes(B.Vpn)
+			if len(idxs) < 2 {
+				return "no-old-tunnel"
+			}
+			if migratable(A, idxs[1], idxs[0]) > 1 {
+				return "skipped-multi" // Go map iteration order would decide the index allocation order
+			}
+			pend := A.State().Pending
+			e.net.Take()
+			A.MigrateRelayUsed(idxs[1], idxs[0])
+			outs, _ := e.collect(ia, pend)
+			return joinOuts(dump(A), append(outs, e.vias...))
 		case "fwd":
 			_, S := node(a[1])
 			ir, R := node(a[2])
@@ -230,6 +268,47 @@ func newExec(t *testing.T) func([]string) string {
 		}
 		return "bad-op"
 	}
+}
+
+// migratable counts the records of the old hostinfo for which migrateRelayUsed would act (send a request).
+func migratable(n *relaynet.Node, oldIdx, newIdx uint32) int {
+	st := n.State()
+	used := map[uint32]bool{}
+	for _, u := range st.RelayUsed {
+		used[u] = true
+	}
+	var o, p *nebula.VerifHostInfo
+	for i := range st.Hosts {
+		if st.Hosts[i].LocalIndex == oldIdx {
+			o = &st.Hosts[i]
+		}
+		if st.Hosts[i].LocalIndex == newIdx {
+			p = &st.Hosts[i]
+		}
+	}
+	if o == nil || p == nil {
+		return 0
+	}
+	k := 0
+	for _, r := range o.RelayFor {
+		if r.Type == 1 && !st.AmRelay {
+			continue // Forwarding relays are not migrated once am_relay is off
+		}
+		var ex *nebula.VerifRelayRec
+		for j := range p.RelayFor {
+			if p.RelayFor[j].PeerAddr == r.PeerAddr {
+				ex = &p.RelayFor[j]
+			}
+		}
+		if ex != nil {
+			if ex.State == 0 { // Requested
+				k++
+			}
+		} else if used[r.LocalIndex] {
+			k++
+		}
+	}
+	return k
 }
 
 func hostRemoteValid(n *relaynet.Node, idx uint32) bool {
@@ -316,6 +395,57 @@ func gen(r *hlib.Rand, n int, tier, profile string, emit func(string, ...any)) {
 		for k := 0; k < steps; k++ {
 			a := r.Intn(nn)
 			b := peerOf(a)
+			// initiator side, relay migration and hostinfo churn
+			if y := r.Intn(100); y < 14 {
+				switch {
+				case y < 6:
+					// a starts relays towards t through b (and sometimes a second relay / itself / the target)
+					t := r.Intn(nn)
+					rl := fmt.Sprintf("%d", b)
+					if r.Chance(1, 4) {
+						rl += fmt.Sprintf(",%d", r.Intn(nn))
+					}
+					em("start %d %d %s", a, t, rl)
+					alloc++
+					if r.Chance(2, 3) {
+						for d := r.Intn(4); d > 0; d-- {
+							em("deliver 0")
+							alloc++
+						}
+						em("start %d %d %s", a, t, rl)
+					}
+				case y < 10:
+					// use the relays, re-handshake, then migrate the used ones to the new primary hostinfo
+					g := idxGuess()
+					for d := r.Range(3, 8); d > 0; d-- {
+						em("fwd %d %d %d", a, b, g)
+						g++
+					}
+					hs(a, b)
+					if r.Chance(1, 3) {
+						em("reload %d %d", b, r.Intn(2))
+					}
+					em("migrate %d %d", b, a)
+					em("migrate %d %d", a, b)
+				case y < 12:
+					// more than MaxHostInfosPerVpnIp hostinfos for one peer: the oldest is retired
+					for d := r.Range(4, 7); d > 0; d-- {
+						if r.Bool() {
+							hs(a, b)
+						} else {
+							hs(b, a)
+						}
+					}
+				default:
+					g := idxGuess()
+					for d := r.Range(2, 6); d > 0; d-- {
+						em("fwd %d %d %d", a, b, g)
+						g++
+					}
+					em("migrate %d %d", b, a)
+				}
+				continue
+			}
 			switch x := r.Intn(100); {
 			case x < 5:
 				hs(a, r.Intn(nn))
